@@ -8,7 +8,7 @@ V = Path(__file__).resolve().parent.parent
 CHECKS = {
     "C04": dict(
         category="proof",
-        text='Lean 4 theorems (C04.*): the whole-tensor shortcuts any(tilt != 0) / all(misalignment == 0) are identities on their guards, so the batched quadrupole / base_rmatrix maps equal the per-sample maps for every mixture in the batch, hence no cross-talk; the Dipole any(length != 0) and Cavity any(delta_energy > 0) branches are proved to cross-talk (witness theorems = known findings). Tie: vectorised transfer_map entries vs per-sample model maps. Falsifier: batched track vs Python loop for all classes, shapes, mixtures.',
+        text='Lean 4 theorems (C04.*): the whole-tensor shortcuts any(tilt != 0) / all(misalignment == 0) are identities on their guards, so the batched quadrupole / base_rmatrix maps equal the per-sample maps for every mixture in the batch, hence no cross-talk; the Dipole body (per-entry torch.where on the length since the fix: commit) is modelled as coded, proved equal to the per-sample map for every mixture of zero and finite lengths and proved to refine the dipole map the other theorems use; the Cavity any(delta_energy > 0) branch is proved to cross-talk (witness theorem = known finding). Tie: vectorised transfer_map entries vs per-sample model maps. Falsifier: batched track vs Python loop for all classes, shapes, mixtures.',
         design="§5 C04",
         note='Trusted: Lean 4.33 kernel, Mathlib; axioms propext/Classical.choice/Quot.sound only (audited each run); instance Scalar ℝ; real-number semantics (round-off outside the theorems, covered by double-vs-double correspondence); harness generators; partial: PyTorch broadcasting/unsqueeze plumbing is not modelled (falsifier only).',
         technique='Lean 4 proof over batch model (lists of per-sample records) + differential correspondence + loop-vs-batch falsifier',
